@@ -18,6 +18,10 @@ CHECKS = {
    text='DashTiming executed on a fully symbolic calendar instant (year..microsecond are solver variables, calendar arithmetic relational), symbolic depth and explicit start; coherence obligations as SMT validity queries on every path; monotonicity by a one-day-window induction step',
    note='now in 1971..2200 UTC; minimumUpdatePeriod from a concrete catalogue (it divides a symbolic value); reference (segment_duration, timescale) from the layout catalogue; float total_seconds() modelled as exact rational with error bound',
    ref='DESIGN.md 5 C08'),
+ 'C19': dict(
+   text='toIsoDuration / from_isodatetime / to_iso_datetime executed on symbolic values: durations N/den with N a solver variable (floats as exact rationals with rounding-error bounds), date-times with symbolic calendar fields, microsecond and UTC offset, text as token strings through the repository own regular expressions; timecode conversions as integer obligations',
+   note='durations are rationals N/den for a catalogue of denominators, x <= 1e7 s, tolerance 0.5 ms + 4 ns; the millisecond field is concretised (1001-way bisection) because the code inspects its digits; tc.inv tolerance max(1 tick, 1 us)',
+   ref='DESIGN.md 5 C19'),
  'C20': dict(
    text='inductive step over an arbitrary reader state satisfying the representation invariant (built on the real BufferedReader class), one operation with symbolic arguments, file content abstracted to index ropes so equality holds for every content; every LRU eviction order through a nondeterministic clock; plus 2-operation sequences from the constructor state',
    note='bounds: buffer sizes / window / offset ranges listed in evidence.bounds; underlying file modelled as a raw file of symbolic length (pysx.rope.SymFile); read(n) for n >= -1, peek(n) for n >= 1',
